@@ -9,3 +9,8 @@ claim("C05", "path enumeration over LLVM IR + cyclic-index model symbolic in buf
       "Decides, for every buf_len >= 2 at once and on every path of every function touching ringbuf_t in both atomics builds: publication order and release/acquire strength, single writer per index, index and subscript range, full/empty predicates with the wrapped successor, unsigned byte delivery. Necessary conditions of C05, each with a concrete failing schedule or input when broken.",
       "Does NOT decide exactly-once in-order delivery over all interleavings. Trusted: clang 14 front end, ir2json, no-alias assumption between descriptor and byte array, buf_len <= 2^31.",
       "DESIGN.md section 2 C05")
+claim("C07", "derived atomicity table + role-based release/acquire strength + hand-off order on all paths (LLVM IR, both atomics builds) + fallback-macro witness TU + cross-build agreement",
+      "other",
+      "A static happens-before argument: (R1) every access to an _Atomic field is atomic in both builds, (R2) the atomics through which plain data changes owner are release/acquire or stronger, (R3) plain accesses to handed-off locations (ring bytes, atomic run-queue slots, receivep) lie on the correct side of those atomics on every path, (R4) each atomic.h fallback macro lowers to the C11 operation of its name, (R5) both builds perform the same atomic operations. Given R1-R3 every conflicting pair of plain accesses inside the library is ordered through one atomic object. This is the property's own content (happens-before from the memory-order argument of every atomic operation), decided for all executions at once rather than for explored ones.",
+      "The ThreadSanitizer clause of the quantifier is a different technique and is not performed. Client code outside the analysed units (librfn/libopencm3, user payload writes between claim and send) is not covered. Trusted: clang 14 front end, ir2json, path enumerator.",
+      "DESIGN.md section 2 C07")
